@@ -65,7 +65,9 @@ var _ = reserr.ErrInvalidRequest
 //@   ensures[C07] result == nil ==> (callcount("Reply") - old(callcount("Reply"))) + (handed() - old(handed())) == 1
 // (a frame is left unanswered only if no id was decoded from it: a JSON object with an unsigned
 // integer id gets its response even if the rest of it has the wrong types)
-//@   assert[C07] return#2: r.ID == nil
+//@   assert[C07] return#2: iderr != nil || idr.ID == nil
+// (a reply to a frame that failed to decode carries an id that was decoded, on its own, without error)
+//@   assert[C07] req.Reply#1: iderr == nil && idr.ID != nil && r.ID == idr.ID
 //@   assert[C07] return#3: r.ID == nil
 //@   assert[C14] req.GetResource#1: codec.predValidRID(arg0, true)
 //@   assert[C14] req.SubscribeResource#1: codec.predValidRID(arg0, true)
